@@ -38,6 +38,61 @@ theorem c10_conn_closes_clean (s : State) (hr : Reachable s)
   have h2 := hi.noDrop x hx k hk hc hp
   cases hph : k.phase <;> simp_all [isPending]
 
+/-! ### 1b. answers precede the close; where a call stops counting as pending -/
+
+/-- Answers precede the close.  Whenever the task of a connection whose client stayed connected
+is ABOUT to finish — the WS writer may exit (it then sends the close frame and the connection is
+dropped) or the HTTP connection future may complete — every call taken off that connection
+already has its answer on the wire.  Together with the bounded queue this is what forces the
+drain to wait for answers that still wait for room in the queue. -/
+theorem c10_answers_precede_close (s : State) (hr : Reachable s) (x : Conn) (hx : x ∈ s.conns)
+    (hp : x.peerGone = false)
+    (he : enabled s (.writerExit x.id) = true ∨ enabled s (.httpClose x.id) = true)
+    (k : Call) (hk : k ∈ s.calls) (hc : k.conn = x.id) : k.phase = .sent ∨ k.phase = .onWire := by
+  have hi := reachable_inv s hr
+  have hnd := hi.noDrop x hx k hk hc hp
+  rcases he with he | he
+  · simp only [enabled, connSat_iff] at he
+    have hg := he.2 x hx rfl
+    simp only [Bool.and_eq_true, Bool.or_eq_true, beq_iff_eq, hp] at hg
+    obtain ⟨⟨_, hws⟩, hq⟩ := hg
+    have hq' : noQueued s x.id = true := by rcases hq with h | h; exact h; cases h
+    have hpend := hi.wstopClean x hx k hk hc hws hp
+    simp only [noQueued, List.all_eq_true, Bool.or_eq_true, bne_iff_ne, ne_eq] at hq'
+    have := hq' k hk
+    cases hph : k.phase <;> simp_all [isPending]
+  · simp only [enabled, connSat_iff] at he
+    have hg := he.2 x hx rfl
+    simp only [Bool.and_eq_true, Bool.or_eq_true, beq_iff_eq, bne_iff_ne, ne_eq, hp] at hg
+    obtain ⟨⟨hhttp, _⟩, hq⟩ := hg
+    have hq' : noInflight s x.id = true := by rcases hq with h | h; exact h.2; cases h
+    have hsh := hi.httpShape x hx k hk hc hhttp
+    simp only [noInflight, List.all_eq_true, Bool.or_eq_true, bne_iff_ne, ne_eq] at hq'
+    have := hq' k hk
+    cases hph : k.phase <;> simp_all [isInflight]
+
+/-- The release point of the pending-call guard (ws.rs: the call task's clone of the service is
+dropped only after `sink.send(json)` returned): as long as a call of a connected client is
+received, executing, or ANSWERED BUT NOT YET QUEUED (its task waits for room in the bounded writer
+queue), the drain of its connection cannot complete — the writer is not told to stop. -/
+theorem c10_drain_waits_for_queueing (s : State) (x : Conn) (hx : x ∈ s.conns) (hph : x.phase = .draining)
+    (hp : x.peerGone = false) (k : Call) (hk : k ∈ s.calls) (hc : k.conn = x.id)
+    (hpend : isPending k.phase = true) : enabled s (.wsDrained x.id) = false := by
+  cases he : enabled s (.wsDrained x.id)
+  · rfl
+  · exfalso
+    simp only [enabled, connSat_iff] at he
+    have hg := he.2 x hx rfl
+    simp only [Bool.and_eq_true, Bool.or_eq_true, beq_iff_eq, hp, hph] at hg
+    obtain ⟨_, hq⟩ := hg
+    rcases hq with ⟨_, h | h⟩ | ⟨h, _⟩
+    · simp only [noPending, List.all_eq_true, Bool.or_eq_true, bne_iff_ne, ne_eq, Bool.not_eq_true'] at h
+      rcases h k hk with h1 | h1
+      · exact h1 hc
+      · rw [h1] at hpend; cases hpend
+    · cases h
+    · cases h
+
 /-! ### 2. no late execution -/
 
 /-- (a) A call first written after `stopped()` resolved is never taken off the wire, let alone
@@ -319,5 +374,35 @@ example :
   refine ⟨by decide, ?_⟩
   simp only [InternalRun]
   decide
+
+/-- burst on a queue of ONE: three calls execute on one WS connection when stop lands; all three
+handlers return at the same instant, only one answer fits the queue.  While the other two wait for
+room (`answered`) the drain cannot complete and the writer cannot exit; once the writer has made
+room step by step everything is on the wire and only then the connection closes. -/
+private def burstOps : List Op :=
+  [.connOpen 1 .ws, .callSend 1 11, .callSend 1 12, .callSend 1 13, .wsRead 11, .wsRead 12, .wsRead 13,
+   .callStart 11, .callStart 12, .callStart 13, .stop, .acceptExit, .observeStop 1,
+   .handlerReturn 11, .handlerReturn 12, .handlerReturn 13, .enqueue 11,
+   .enqueue 12]                    -- disabled: the queue (cap 1) is full
+
+example :
+    let s := run (init 1) burstOps
+    s.calls.map (fun k => (k.id, k.phase)) = [(13, .answered), (12, .answered), (11, .queued)] ∧
+    enabled s (.enqueue 12) = false ∧ enabled s (.wsDrained 1) = false ∧ enabled s (.writerExit 1) = false ∧
+    enabled s (.writerStep 11) = true := by decide
+
+example :
+    let s := run (init 1) (burstOps ++ [.writerStep 11, .wsDrained 1, .enqueue 12, .wsDrained 1, .writerStep 12,
+      .enqueue 13, .writerExit 1, .wsDrained 1, .writerExit 1, .writerStep 13, .writerExit 1, .resolve])
+    s.resolved = true ∧ s.calls.map (fun k => (k.id, k.phase)) = [(13, .onWire), (12, .onWire), (11, .onWire)] := by decide
+
+/-- hypotheses of `c10_drain_waits_for_queueing` / `c10_answers_precede_close` are met in that run -/
+example :
+    let s := run (init 1) burstOps
+    ∃ x ∈ s.conns, ∃ k ∈ s.calls, x.phase = .draining ∧ x.peerGone = false ∧ k.conn = x.id ∧ k.phase = .answered := by
+  decide
+example :
+    let s := run (init 1) (burstOps ++ [.writerStep 11, .enqueue 12, .writerStep 12, .enqueue 13, .wsDrained 1, .writerStep 13])
+    enabled s (.writerExit 1) = true ∧ s.calls.map (·.phase) = [.onWire, .onWire, .onWire] := by decide
 
 end Jrpc.Stop
